@@ -345,11 +345,16 @@ mutual
   def anyBranch (w : Wire) (env : Env) : Nat → String → Nat → Nat → Json → Bool
     | 0, _, _, _, _ => false
     | _ + 1, _, 0, _, _ => false
-    | f + 1, dn, n + 1, i, j =>
-      (match env.resolve 8 s!"{dn}_{i}" with
-       | some bd => (match (if bd.hasMethod then runMethod w env f bd j else .error (.uncompilable "branch-without-method")) with
-                     | .ok _ => true | .error _ => false)
-       | none => false) || anyBranch w env f dn n (i + 1) j
+    | f + 1, dn, n + 1, i, j => branchAccepts w env f dn i j || anyBranch w env f dn n (i + 1) j
+
+  /-- `var x T_i; x.Unmarshal<W>(value)` returns nil -/
+  def branchAccepts (w : Wire) (env : Env) : Nat → String → Nat → Json → Bool
+    | 0, _, _, _ => false
+    | f + 1, dn, i, j =>
+      match env.resolve 8 s!"{dn}_{i}" with
+      | some bd => (match (if bd.hasMethod then runMethod w env f bd j else .error (.uncompilable "branch-without-method")) with
+                    | .ok _ => true | .error _ => false)
+      | none => false
 
   /-- validators emitted after the shadow decode, in order -/
   def runAfter (w : Wire) (env : Env) : Nat → GoTy → List Validator → Option (List (String × Json)) → GoVal → R GoVal
